@@ -333,6 +333,74 @@ def refs(x):
 
 
 # ---------------------------------------------------------------------------
+# spelling normalisation: E1[E2] is *((E1)+(E2)) by definition, so the rules see one spelling
+
+
+def _type_of(x):
+    if not isinstance(x, dict):
+        return ""
+    if x.get("k") == "cast":
+        return (x.get("to") or {}).get("t", "")
+    return x.get("t") or ""
+
+
+def _is_ptr(x):
+    t = _type_of(x)
+    t = t.replace("__restrict", "").replace("restrict", "").replace("const", "").replace("volatile", "").strip()
+    return t.endswith("*") or t.endswith("]")
+
+
+def _ptr_sum(x):
+    """(pointer, index) when x is `p + i` / `i + p` (through value-preserving casts), else None."""
+    y = x
+    while isinstance(y, dict) and y.get("k") == "cast" and y.get("ck") in ("LValueToRValue", "NoOp", None):
+        y = y["e"]
+    if isinstance(y, dict) and y.get("k") == "bin" and y["op"] == "+":
+        if _is_ptr(y["l"]) and not _is_ptr(y["r"]):
+            return y["l"], y["r"]
+        if _is_ptr(y["r"]) and not _is_ptr(y["l"]):
+            return y["r"], y["l"]
+    return None
+
+
+def normalise(x):
+    """`*(p + i)` -> `p[i]`, `(p + i)->f` -> `p[i].f`, `&p[i]` -> `p + i`, `&*p` -> `p`, `(*p).f` -> `p->f`."""
+    if isinstance(x, list):
+        return [normalise(v) for v in x]
+    if not isinstance(x, dict):
+        return x
+    x = {k: (normalise(v) if isinstance(v, (dict, list)) else v) for k, v in x.items()}
+    k = x.get("k")
+    if k == "un" and x.get("op") == "*":
+        ps = _ptr_sum(x["e"])
+        if ps:
+            return {"k": "idx", "b": ps[0], "i": ps[1], "t": x.get("t"), "line": x.get("line")}
+        e = x["e"]
+        while isinstance(e, dict) and e.get("k") == "cast" and e.get("ck") in ("LValueToRValue", "NoOp", None):
+            e = e["e"]
+        if isinstance(e, dict) and e.get("k") == "un" and e.get("op") == "&":
+            return e["e"]
+    elif k == "mem" and x.get("arrow"):
+        ps = _ptr_sum(x["b"])
+        if ps:
+            y = dict(x)
+            y["arrow"] = False
+            y["b"] = {"k": "idx", "b": ps[0], "i": ps[1], "t": x.get("rec") or "", "line": x.get("line")}
+            return y
+    elif k == "mem" and not x.get("arrow"):
+        b = x["b"]
+        if isinstance(b, dict) and b.get("k") == "un" and b.get("op") == "*" and _is_ptr(b["e"]):
+            y = dict(x)
+            y["arrow"] = True
+            y["b"] = b["e"]
+            return y
+    elif k == "un" and x.get("op") == "&":
+        e = x["e"]
+        if isinstance(e, dict) and e.get("k") == "idx" and _is_ptr(e["b"]) and not _type_of(e["b"]).rstrip().endswith("]"):
+            return {"k": "bin", "op": "+", "l": e["b"], "r": e["i"], "t": x.get("t"), "line": e.get("line")}
+        if isinstance(e, dict) and e.get("k") == "un" and e.get("op") == "*":
+            return e["e"]
+    return x
 
 
 class Block:
@@ -344,8 +412,8 @@ class Block:
         self.succs = raw["succs"]
         self.dead = set(raw.get("dead", []))
         self.preds = raw["preds"]
-        self.elems = raw["elems"]
-        self.term = raw.get("term")
+        self.elems = [dict(e, x=normalise(e["x"])) for e in raw["elems"]]
+        self.term = normalise(raw.get("term"))
         self.label = raw.get("label")
         self.looptarget = raw.get("looptarget")
         self.noreturn = raw.get("noreturn", False)
@@ -651,6 +719,12 @@ class Function:
 class Program:
     def __init__(self, docs):
         self.docs = docs
+        # a known helper that is gone while an unknown one with its exact signature has appeared is that helper renamed (sa/rename.py)
+        self.renamed = []
+        if not os.environ.get("ECHSE_NO_INLINE"):
+            from .inline import known_functions as _kf
+            from .rename import resolve_renames
+            self.renamed = resolve_renames(docs, _kf())
         self.units = {os.path.basename(d["unit"]): d for d in docs}
         self.functions = defaultdict(list)
         seen = set()
